@@ -5,6 +5,7 @@
 package crashfree
 
 import (
+	"strconv"
 	"bytes"
 	"fmt"
 	"os"
@@ -39,7 +40,7 @@ var allow = []string{
 var twoArgQuick = map[string]bool{"args": true, "tout": true, "alter": true, "config": true, "test": true, "map": true, "set": true, "cast": true, "format": true}
 
 // argument alphabet (DESIGN C19 plus `-5`: a negative index beyond -n)
-var argAlpha = []string{"", "-1", "-5", "0", "99999999999999999999", "--bad", "{", "[", "]", "a", "null", "[1,2]", `{"a":1}`, "c", "*3"}
+var argAlpha = []string{"", "-1", "-5", "0", "99999999999999999999", "--bad", "{", "[", "]", "a", "null", "[1,2]", `{"a":1}`, "c", "*3", "*0"}
 
 // scope parameters: the parameters of the function the program runs in (what `args` and $ARGS look at)
 var scopeQuick = [][]string{nil, {"--bad"}, {"-1"}}
@@ -71,7 +72,7 @@ func init() {
 
 	vlib.Register(&vlib.Check{
 		ID: "C19", Engine: "E2",
-		Rule: "program = one command from an explicit allow-list of 95 data/structural builtins (index, element, range, lists, mkarray, format, cast, tout, args, config, set/global, escape family, json tools, count, match/regexp, alter, struct-keys, switch/if/foreach/try family, test …) x every argument tuple of arity <= A over {empty string, -1, -5, 0, 99999999999999999999, --bad, {, [, ], a, null, [1,2], {\"a\":1}, c, *3} passed verbatim through variables (quick A=1, plus A=2 for the builtins that need two arguments: args tout alter config test map set cast format; thorough A=2 for all) x mode {function without stdin; method fed by {empty, two lines, JSON array, JSON object, a whitespace table with a short row}} x scope parameters {none, --bad, -1 (thorough also: a; --bad a)}; each run in-process (same fork seam as mx.Run) on its own goroutine with fd 2 read while it runs: 'blocked' is declared when crash.Handler's report is on fd 2 and the caller is still waiting 0.3 s later, or when nothing came back after 120 s; after 24 blocked cases in one builtin/arity/mode/scope class the rest of that class is skipped and counted; plus every sequence of <= 3 (thorough <= 4) commands over {pipe a, !pipe a, pipe b, !pipe b} run in a child murex process built from the working tree which then waits 3 s (the close grace period) and must still print `alive`. Oracle: the run returns control; no 'panic caught', no 'Murex has crashed', no Go panic trace; exit number != 0 whenever stderr carries a murex error report (`Error in`); child process exits normally. non-trivial = the command reported an error or produced output on stderr (an error path was executed) or the case is a pipe sequence with at least one close",
+		Rule: "program = one command from an explicit allow-list of 95 data/structural builtins (index, element, range, lists, mkarray, format, cast, tout, args, config, set/global, escape family, json tools, count, match/regexp, alter, struct-keys, switch/if/foreach/try family, test …) x every argument tuple of arity <= A over {empty string, -1, -5, 0, 99999999999999999999, --bad, {, [, ], a, null, [1,2], {\"a\":1}, c, *3, *0} passed verbatim through variables (quick A=1, plus A=2 for the builtins that need two arguments: args tout alter config test map set cast format; thorough A=2 for all) x mode {function without stdin; method fed by {empty, two lines, JSON array, JSON object, a whitespace table with a short row}} x scope parameters {none, --bad, -1 (thorough also: a; --bad a)}; each run in-process (same fork seam as mx.Run) on its own goroutine with fd 2 read while it runs: 'blocked' is declared when crash.Handler's report is on fd 2 and the caller is still waiting 0.3 s later, or when nothing came back after 120 s; after 24 blocked cases in one builtin/arity/mode/scope class the rest of that class is skipped and counted; plus every sequence of <= 3 (thorough <= 4) commands over {pipe a, !pipe a, pipe b, !pipe b, pipe a --file /no/such/dir/x (a creation whose constructor fails)} run in a child murex process built from the working tree which then waits 3 s (the close grace period) and must still print `alive`, plus six single programs whose redirection token creates a temporary pipe (<nosuch:xyz>, <file:/no/such/dir/x>, <std:x>, ...); a child is declared blocked when every one of its threads is asleep and it has consumed no CPU time for 25 s (state-based: a starved child has runnable threads), and spinning when it has itself consumed more than 60 s of CPU time (load-independent). Oracle: the run returns control; no 'panic caught', no 'Murex has crashed', no Go panic trace; exit number != 0 whenever stderr carries a murex error report (`Error in`); child process exits normally. non-trivial = the command reported an error or produced output on stderr (an error path was executed) or the case is a pipe sequence with at least one close",
 		Run:    run,
 		Replay: replay,
 		Shards: func(string) int { return 16 },
@@ -266,7 +267,18 @@ func evalCase(c *vlib.Ctx, k kase, n int, hung map[string]int) {
 
 // ---- pipe / !pipe sequences in a child process ----
 
-var pipeOps = []string{"pipe a%s", "!pipe a%s", "pipe b%s", "!pipe b%s"}
+// the last operation is a creation whose constructor fails (the registry must be usable afterwards)
+var pipeOps = []string{"pipe a%s", "!pipe a%s", "pipe b%s", "!pipe b%s", "pipe a%s --file /no/such/dir/x"}
+
+// single programs run alone in a child process: redirection tokens that create a temporary pipe
+var childSingles = []string{
+	"out <nosuch:xyz> hi",
+	"out <file:/no/such/dir/x> hi",
+	"out <std:x> hi",
+	"out <!nosuch:xyz> hi",
+	"out <nosuch:xyz> hi; pipe a; !pipe a",
+	"out hi -> <nosuch:xyz>",
+}
 
 func seqSource(idx []int, suffix string) string {
 	var parts []string
@@ -294,6 +306,44 @@ type childResult struct {
 	exit           int
 	signaled       string
 	timeout        bool
+	blocked        bool // every thread asleep and no CPU time consumed for blockedAfter: the shell is stuck, not slow
+	spinning       bool // the child itself consumed spinCPU of CPU time (independent of machine load) without finishing
+}
+
+// the child programs need well under a second of CPU time; a process that has burnt a minute of its own CPU
+// time is polling for something that will never happen
+const spinTicks = 60 * 100 // clock ticks (USER_HZ = 100)
+
+const blockedAfter = 25 * time.Second
+
+// procBusy: total CPU ticks of the process and whether any of its threads is runnable or in disk wait.
+func procBusy(pid int) (ticks uint64, active bool, ok bool) {
+	tasks, err := os.ReadDir(fmt.Sprintf("/proc/%d/task", pid))
+	if err != nil {
+		return 0, false, false
+	}
+	for _, t := range tasks {
+		b, err := os.ReadFile(fmt.Sprintf("/proc/%d/task/%s/stat", pid, t.Name()))
+		if err != nil {
+			continue
+		}
+		txt := string(b)
+		i := strings.LastIndexByte(txt, ')')
+		if i < 0 {
+			continue
+		}
+		f := strings.Fields(txt[i+1:])
+		if len(f) < 13 {
+			continue
+		}
+		if f[0] != "S" {
+			active = true
+		}
+		u, _ := strconv.ParseUint(f[11], 10, 64)
+		k, _ := strconv.ParseUint(f[12], 10, 64)
+		ticks += u + k
+	}
+	return ticks, active, true
 }
 
 func runChild(c *vlib.Ctx, script string, ceiling time.Duration) childResult {
@@ -308,12 +358,45 @@ func runChild(c *vlib.Ctx, script string, ceiling time.Duration) childResult {
 	done := make(chan error, 1)
 	go func() { done <- cmd.Wait() }()
 	var res childResult
-	select {
-	case <-done:
-	case <-time.After(ceiling):
-		cmd.Process.Kill()
-		<-done
-		res.timeout = true
+	deadline := time.After(ceiling)
+	tick := time.NewTicker(time.Second)
+	defer tick.Stop()
+	var lastTicks uint64
+	idleSince := time.Now()
+wait:
+	for {
+		select {
+		case <-done:
+			break wait
+		case <-deadline:
+			cmd.Process.Kill()
+			<-done
+			res.timeout = true
+			break wait
+		case <-tick.C:
+			// state-based, not duration-based: a starved child has runnable threads, a finite sleep ends long
+			// before blockedAfter; only a shell whose every thread sleeps without ever consuming CPU is stuck
+			ticks, active, ok := procBusy(cmd.Process.Pid)
+			if !ok {
+				continue
+			}
+			if ticks > spinTicks {
+				cmd.Process.Kill()
+				<-done
+				res.spinning = true
+				break wait
+			}
+			if active || ticks != lastTicks {
+				lastTicks, idleSince = ticks, time.Now()
+				continue
+			}
+			if time.Since(idleSince) > blockedAfter {
+				cmd.Process.Kill()
+				<-done
+				res.blocked = true
+				break wait
+			}
+		}
 	}
 	res.stdout, res.stderr = out.String(), errb.String()
 	res.exit = cmd.ProcessState.ExitCode()
@@ -327,6 +410,10 @@ func childBad(r childResult) *verdict {
 	switch {
 	case r.timeout:
 		return nil // handled by the caller (inconclusive)
+	case r.spinning:
+		return &verdict{"caller-not-blocked", fmt.Sprintf("the murex process consumed more than 60 s of CPU time without reaching the end of a program that needs a fraction of a second (it polls for something that never happens); stdout %q, stderr %s", vlib.Clip(r.stdout, 100), firstLines(r.stderr, 4))}
+	case r.blocked:
+		return &verdict{"caller-not-blocked", fmt.Sprintf("the murex process stopped making progress (every thread asleep, no CPU time for %v) before reaching the end of the program; stdout %q, stderr %s", blockedAfter, vlib.Clip(r.stdout, 100), firstLines(r.stderr, 4))}
 	case r.signaled != "":
 		return &verdict{"shell-survives", "the murex process was killed by " + r.signaled}
 	case mx.HasPanicText(r.stderr) || strings.Contains(r.stderr, "panic:"):
@@ -390,6 +477,26 @@ func runPipeSeqs(c *vlib.Ctx) {
 	c.Sample(map[string]any{"child_program": vlib.Clip(b.String(), 200), "stdout": vlib.Clip(r.stdout, 60), "exit": r.exit})
 }
 
+func runChildSingles(c *vlib.Ctx) {
+	for i, prog := range childSingles {
+		if !c.Mine(uint64(i)) {
+			continue
+		}
+		r := runChild(c, prog+"\nout alive\n", 3*time.Minute)
+		if r.timeout {
+			c.P.Exhaustive = false
+			c.Note("child program %q did not finish within 3 minutes (inconclusive)", prog)
+			continue
+		}
+		outcome := "child-single/ok"
+		if v := childBad(r); v != nil {
+			outcome = "child-single/VIOLATION"
+			c.Violation(v.clause, "child: "+prog, v.detail)
+		}
+		c.Eval(true, outcome)
+	}
+}
+
 func run(c *vlib.Ctx) {
 	murexbin.Path(c) // before mx.Init (the build needs the original HOME)
 	defer murexbin.Done(c)
@@ -424,6 +531,7 @@ func run(c *vlib.Ctx) {
 		}
 	}
 	runPipeSeqs(c)
+	runChildSingles(c)
 }
 
 func replay(c *vlib.Ctx, w string) {
@@ -435,6 +543,16 @@ func replay(c *vlib.Ctx, w string) {
 			if seqWitness(s) == w {
 				one := runChild(c, seqSource(s, "")+"\nsleep 3; out alive\n", 3*time.Minute)
 				fmt.Printf("exit=%d stdout=%q stderr=%s\n", one.exit, one.stdout, firstLines(one.stderr, 6))
+				if v := childBad(one); v != nil {
+					c.Violation(v.clause, w, v.detail)
+				}
+				return
+			}
+		}
+		for _, prog := range childSingles {
+			if "child: "+prog == w {
+				one := runChild(c, prog+"\nout alive\n", 3*time.Minute)
+				fmt.Printf("exit=%d blocked=%v stdout=%q stderr=%s\n", one.exit, one.blocked, one.stdout, firstLines(one.stderr, 6))
 				if v := childBad(one); v != nil {
 					c.Violation(v.clause, w, v.detail)
 				}
